@@ -457,9 +457,15 @@ class CollisionArray:
             targetGrid.N - 1,
             targetGrid.N - 1,
         )
-        interpolatedData = np.array(source.polynomialData.evaluate(gridPoints, (1, 2)))[
-            ..., : targetGrid.N - 1, : targetGrid.N - 1
-        ].reshape(newShape)
+        # evaluate() returns axes (points, particle, particle, poly, poly): move the
+        # points axis behind the first particle axis before splitting it into (pz, pp)
+        interpolatedData = np.moveaxis(
+            np.array(source.polynomialData.evaluate(gridPoints, (1, 2)))[
+                ..., : targetGrid.N - 1, : targetGrid.N - 1
+            ],
+            0,
+            1,
+        ).reshape(newShape)
 
         interpolatedPolynomial = Polynomial(
             interpolatedData,
